@@ -365,9 +365,31 @@ func flatOf(c Case) []float64 {
 }
 
 func prop(c Case) error {
+	buf := flatOf(c)
+	if err := hullOf(c, buf); err != nil {
+		return err
+	}
+	if len(c.PtsF) > 0 {
+		return nil
+	}
+	// the same array refilled with other points (the set reflected through the origin
+	// and shifted) and handed over again: nothing may be remembered about the array
+	c2 := c
+	c2.Pts = make([][2]int64, len(c.Pts))
+	for i, p := range c.Pts {
+		c2.Pts[i] = [2]int64{3 - p[0], -7 - p[1]}
+	}
+	copy(buf, flatOf(c2))
+	if err := hullOf(c2, buf); err != nil {
+		return fmt.Errorf("the input array refilled with the reflected points and handed over again: %v", err)
+	}
+	return nil
+}
+
+// hullOf checks the hull of the case's points, laid out in flat.
+func hullOf(c Case, flat []float64) error {
 	layout := geom.Layout(c.Layout)
 	stride := layout.Stride()
-	flat := flatOf(c)
 	before := append([]float64{}, flat...)
 	var res geom.T
 	switch c.Via {
